@@ -141,7 +141,8 @@ def install(R):
 
     R.prop_meta["C16"] = dict(
         bounded_in_quick="every generated script executed with bash and stub scheduler variables on the real code: replay/C16.py (SGE / PBS / SLURM x array / single x "
-                         "{nothing grown, some results present, explicit batch ids of length 1..2} x resource spellings; once per array index or once; exactly the "
+                         "{nothing grown, some results present, explicit batch ids of length 1..2, an explicitly requested batch that is already grown, a crop handle that saw an earlier "
+                         "sowing} x resource spellings, cases finishing out of order under num_workers=2; once per array index or once; exactly the "
                          "requested / missing batches are grown, each once, then the crop reaps exactly; array header range; the xyzpy-grow command line)",
         not_decided=["what bash, the scheduler and the embedded interpreter do with the generated text is outside any contract: exercised by the bounded replay only",
                      "the resource-parsing prefix of gen_cluster_script (time / memory / threads / conda) is skipped by the slice: bounded replay only",
